@@ -113,7 +113,7 @@ func varyPAT(t *rapid.T, c CaseC07) CaseC07 {
 	return v
 }
 
-var propC07Sess = hx.Register(hx.Prop[hx.SessCase[CaseC07]]{ID: "C07", Variant: "session", Thin: 8,
+var propC07Sess = hx.Register(hx.Prop[hx.SessCase[CaseC07]]{ID: "C07", Variant: "session", Thin: 24,
 	Gen:   func(t *rapid.T) hx.SessCase[CaseC07] { return hx.GenSession(t, genC07, varyPAT) },
 	Check: func(sc hx.SessCase[CaseC07], x *hx.Ctx) *hx.Failure { return hx.RunSession(sc, x, sessPAT) }})
 
@@ -306,7 +306,7 @@ func sessSCTEEncode(c CaseC09, a *hx.Arena) (hx.SessionRun, *hx.Failure) {
 	return hx.SessionRun{Probes: []hx.Probe{probe}, Mutate: mutate}, nil
 }
 
-var propC09Sess = hx.Register(hx.Prop[hx.SessCase[CaseC09]]{ID: "C09", Variant: "session", Thin: 8,
+var propC09Sess = hx.Register(hx.Prop[hx.SessCase[CaseC09]]{ID: "C09", Variant: "session", Thin: 40,
 	Gen:   func(t *rapid.T) hx.SessCase[CaseC09] { return hx.GenSession(t, genC09, nil) },
 	Check: func(sc hx.SessCase[CaseC09], x *hx.Ctx) *hx.Failure { return hx.RunSession(sc, x, sessSCTEEncode) }})
 
